@@ -260,17 +260,10 @@ class CSSImportRule(cssrule.CSSRule):
                        doc="(DOM) The parsable textual representation of this rule.")
 
     def _setHref(self, href):
-        # set new href
-        self._href = href
-        # update seq
-        for i, item in enumerate(self.seq):
-            type_ = item.type
-            if 'href' == type_:
-                self._seq[i] = (href, type_, item.line, item.col)
-                break
-
+        # the imported sheet is loaded first: with exceptions enabled a
+        # syntax error in it is raised and must leave this rule unchanged
         importedSheet = css_parser.css.CSSStyleSheet(media=self.media, ownerRule=self, title=self.name)
-        self.hrefFound = False
+        hrefFound = False
         # set styleSheet
         if href and self.parentStyleSheet:
             # loading errors are all catched!
@@ -284,7 +277,7 @@ class CSSImportRule(cssrule.CSSRule):
             # all possible exceptions are ignored
             try:
                 # a malformed href (e.g. "//[") makes urlparse raise ValueError
-                fullhref = urljoin(parentHref, self.href)
+                fullhref = urljoin(parentHref, href)
 
                 usedEncoding, enctype, cssText = \
                     self.parentStyleSheet._resolveImport(fullhref)
@@ -313,12 +306,21 @@ class CSSImportRule(cssrule.CSSRule):
             except (OSError, IOError, ValueError, LookupError) as e:
                 self._log.warn('CSSImportRule: While processing imported '
                                'style sheet href=%s: %r'
-                               % (self.href, e), neverraise=True)
+                               % (href, e), neverraise=True)
 
             else:
                 # used by resolveImports if to keep unprocessed href
-                self.hrefFound = True
+                hrefFound = True
 
+        # set new href
+        self._href = href
+        # update seq
+        for i, item in enumerate(self.seq):
+            type_ = item.type
+            if 'href' == type_:
+                self._seq[i] = (href, type_, item.line, item.col)
+                break
+        self.hrefFound = hrefFound
         self._styleSheet = importedSheet
 
     _href = None  # needs to be set
